@@ -24,7 +24,7 @@ class Fn:
     """side-car contract of one function of /repo"""
 
     def __init__(self, path, ret=None, requires=(), ensures=(), loops=None, panics=None, valid='true',
-                 closures=None, hints=(), attrs=(), rewrites=(), level='L0', r3_skip=(), inherent=False,
+                 closures=None, hints=(), attrs=(), rewrites=(), level='L0', r3_skip=(), inherent=False, outline=False,
                  shape=None, pre_body='', decreases=None, name_as=None, generics=None, no_unwind=None,
                  sig_sub=(), mut_params=(), float_casts=(), companion=None, rej_clause=True, impl_items=None, trait_requires=False):
         self.impl_items = impl_items
@@ -42,6 +42,7 @@ class Fn:
         self.closures = closures or {}
         self.hints = list(hints)            # (anchor_substring, 'before'|'after'|'body_start'|'body_end', text)
         self.attrs = list(attrs)
+        self.outline = outline   # R30: body of a trait-impl method emitted as a free function, the method calls it
         self.rewrites = list(rewrites)      # (old, new, why): function-specific, logged as rule RX
         self.level = level
         self.r3_skip = tuple(r3_skip)
@@ -88,6 +89,22 @@ class Unit:
 
 
 # ---------------------------------------------------------------- signature handling
+def _split_top(t):
+    out, depth, cur = [], 0, ''
+    for ch in t:
+        if ch in '([<{':
+            depth += 1
+        elif ch in ')]>}':
+            depth -= 1
+        if ch == ',' and depth == 0:
+            out.append(cur)
+            cur = ''
+        else:
+            cur += ch
+    out.append(cur)
+    return out
+
+
 def _split_sig(sig):
     """sig: 'pub fn name<G>(params) -> Ret where ...'  ->  (head_upto_close_paren, ret_type or None, where or '')"""
     m = mask(sig)
@@ -152,6 +169,7 @@ class Gen:
         self.crate = crate
         self.log = log or rules.Log()
         self.fingerprints = {}
+        self.outlined = []
 
     # ---- one function
     def fn_text(self, fn, stub=False):
@@ -224,12 +242,42 @@ class Gen:
         lines.append('//@fn-begin %s' % fn.path)
         for a in fn.attrs:
             lines.append(a)
-        if stub:
+        outl = (not stub) and fn.outline and is_trait_impl
+        if stub or outl:
             lines.append('#[verifier::external_body]')
         lines.append('%s%s%s %s' % (vis, head, retdecl, where))
-        lines += render_contract(fn, lines, stub, trait_impl=is_trait_impl)
+        lines += render_contract(fn, lines, stub or outl, trait_impl=is_trait_impl)
         if stub:
             lines.append('{ unimplemented!() }')
+        elif fn.outline and is_trait_impl:
+            # R30: Verus loses the vstd iterator specifications in trait-impl methods and in anything they call (observed:
+            # the same body verifies as a free function nobody calls).  The body is verified as a free function over
+            # `self_` carrying the method's contract verbatim; the method itself is emitted as a contract-only stub.
+            import copy
+            self_ty = header.split(' for ', 1)[1].strip()
+            oname = '%s__outlined_%s' % (fn.short, re.sub(r'\W+', '_', header))
+            sub = lambda t: re.sub(r'\bself\b', 'self_', t)
+            mh = re.match(r'fn\s+\w+\s*\((.*)\)\s*$', head, re.S)
+            if not mh:
+                raise AnchorError('%s: cannot outline signature %r' % (fn.path, head))
+            params = [x.strip() for x in _split_top(mh.group(1)) if x.strip()]
+            if not params or params[0] not in ('self', '&self'):
+                raise AnchorError('%s: outlining supports `self` / `&self` receivers only' % fn.path)
+            p0 = 'self_: ' + (self_ty if params[0] == 'self' else '&' + self_ty)
+            args = ['self'] + [x.split(':', 1)[0].strip() for x in params[1:]]
+            f2 = copy.copy(fn)
+            f2.requires = [sub(x) for x in fn.requires]
+            f2.ensures = [sub(x) for x in fn.ensures]
+            f2.valid = sub(fn.valid) if fn.valid else fn.valid
+            ol = ['//@fn-begin %s' % fn.path, '// R30: body of %s outlined' % fn.path]
+            ohead = 'pub fn %s(%s)%s %s' % (oname, ', '.join([p0] + params[1:]), retdecl.replace(': Self)', ': %s)' % self_ty), where)
+            ol.append(ohead)
+            ol += render_contract(f2, ol, False, trait_impl=False)
+            ol.append(sub(self.body_text(fn, body)))
+            ol.append('//@fn-end %s' % fn.path)
+            self.outlined.append('\n'.join(ol))
+            self.log.add('R30', fn.path, head, ohead)
+            lines.append('{ unimplemented!() } // body verified as %s' % oname)
         else:
             lines.append(self.body_text(fn, body))
         lines.append('//@fn-end %s' % fn.path)
@@ -647,6 +695,8 @@ class Gen:
                     if comp:
                         parts.append(comp)
                         self.log.add('R13', header, header, comp.split('{')[0])
+        parts += self.outlined
+        self.outlined = []
         # canaries (must FAIL): axiom consistency + one per function with requires
         parts.append('//@canary-begin')
         parts.append('proof fn canary_axioms() ensures false {} //@[canary.axioms]')
